@@ -167,6 +167,15 @@ Theorem C07_request_origin : forall cfg s r q,
 Proof. exact GapOrigin.request_origin. Qed.
 Print Assumptions C07_request_origin.
 
+(* super mode: a stored request of a reachable state carries no fee exactly when its context is
+   in super mode; otherwise its fee is at least 1.  (That the consumer is then charged nothing:
+   C06_batch_spec (e) / C06_end_block_outcome, charge = 0 when c_super.) *)
+Theorem C07_super_fee_zero : forall cfg s r q rc,
+  wf_cfg cfg -> Reach cfg s -> get r (reqs s) = Some q -> get (rid_ctx r) (ctxs s) = Some rc ->
+  (c_super rc = true <-> r_fee q = 0) /\ (c_super rc = false -> 1 <= r_fee q).
+Proof. exact GapC07.super_fee_zero. Qed.
+Print Assumptions C07_super_fee_zero.
+
 (* C07_volume_moves, step level.  An accepted response adds exactly one to the volume of
    (consumer of the context, service of the context, provider of the request) -- also when the
    output is malformed and the fee refunded -- and leaves every other volume alone *)
